@@ -250,7 +250,7 @@ def corpus_cases():
 
 def run(chk: Check) -> int:
     proof = proof_stage(PROP, "driver_c12", chk.thorough) if not getattr(chk, "skip_proof", False) else None
-    n = chk.budget(3500, 120000)
+    n = chk.budget(3500, 60000)
     nbig = chk.budget(18, 180)
     nunreg = chk.budget(60, 1200)
     rng = chk.rng
